@@ -19,42 +19,8 @@ import random
 from .. import gencorr as G
 from ..core import Check
 
-HASH_UNSAFE_INST = {"dict", "set", "list"}
-
-
 def direct_bound(v):
     return not isinstance(v, (str, G.uuid.UUID))
-
-
-def hash_t(s):
-    """Props/C11.lean hashT."""
-    h = s[0]
-    if h in ("tt", "ff", "ne", "none", "notnone", "ge", "gt", "le", "lt"):
-        return True
-    if h == "eq":
-        return hashable(s[1])
-    if h == "in":
-        return True
-    if h == "inst":
-        return s[1][0] not in ("dict", "set")
-    return False
-
-
-def hash_f(s):
-    h = s[0]
-    if h in ("tt", "ff", "none", "notnone", "ge", "gt"):
-        return True
-    if h == "ne":
-        return hashable(s[1])
-    return False
-
-
-def hashable(v):
-    try:
-        hash(v)
-        return True
-    except TypeError:
-        return False
 
 
 def bounded(mode, s):
@@ -68,7 +34,7 @@ def bounded(mode, s):
         if h == "or":
             return bounded("T", s[1]) and bounded("T", s[2])
         if h in ("all", "any"):
-            return bounded("T", s[1]) and hash_t(s[1])
+            return bounded("T", s[1])
         return False
     if h in ("tt", "ff", "ne", "empty", "none", "notnone", "truthy"):
         return True
@@ -79,7 +45,7 @@ def bounded(mode, s):
     if h == "all":
         return bounded("F", s[1])
     if h == "setof":
-        return bounded("F", s[1]) and hash_f(s[1])
+        return bounded("F", s[1])
     return False
 
 
@@ -130,20 +96,11 @@ def satisfiable_known(mode, s):
 
 def explain(mode, s, what):
     h = s[0]
-    if what == "error:TypeError" and h in ("all", "any", "setof"):
-        inner = s[1]
-        unsafe = (mode == "T" and not hash_t(inner)) or (mode == "F" and not hash_f(inner))
-        if unsafe:
-            return "KF-gen-unhashable-set"
-    if what in ("no-progress", "empty-but-satisfiable") and ((mode == "T" and h == "notin") or (mode == "F" and h == "in")):
+    if what == "no-progress" and ((mode == "T" and h == "notin") or (mode == "F" and h == "in")):
         members = list(s[1])
         first = next((m for m in members if isinstance(m, (int, str))), None)
-        if first is None and what == "empty-but-satisfiable":
-            return "KF-gen-notin-no-int-str"
-        if isinstance(first, int) and what == "no-progress" and all(i in members for i in range(-100, 101)):
+        if isinstance(first, int) and all(i in members for i in range(-100, 101)):
             return "KF-gen-notin-window"
-    if what == "no-progress" and h == "setof" and s[1][0] in ("all", "setof", "empty", "falsy", "truthy"):
-        return "KF-gen-unhashable-set"
     return None
 
 
